@@ -94,8 +94,10 @@ compute_enum_storage_type (GIrNodeEnum *enum_node)
 	width = sizeof(Enum7);
       else if (min_value >= G_MINSHORT && max_value <= G_MAXSHORT)
 	width = sizeof(Enum8);
-      else
+      else if (min_value >= G_MININT && max_value <= G_MAXINT)
 	width = sizeof(Enum9);
+      else
+	width = sizeof(gint64); /* does not fit an int: the compiler uses a 64-bit type */
     }
   else
     {
@@ -124,10 +126,16 @@ compute_enum_storage_type (GIrNodeEnum *enum_node)
 	  width = sizeof (Enum5);
 	  signed_type = (gint64)(Enum5)(-1) < 0;
 	}
-      else
+      else if (max_value <= G_MAXUINT)
 	{
 	  width = sizeof (Enum6);
 	  signed_type = (gint64)(Enum6)(-1) < 0;
+	}
+      else
+	{
+	  /* does not fit an unsigned int: the compiler uses a 64-bit type */
+	  width = sizeof (guint64);
+	  signed_type = FALSE;
 	}
     }
 
